@@ -661,6 +661,20 @@ fn expr_json(e: &rustc_ast::Expr, depth: usize) -> String {
             let _ = write!(o, "],\"src\":{}}}", esc(&src));
             o
         }
+        ExprKind::Call(f, args) => {
+            let mut o = format!(
+                "{{\"k\":\"call\",\"func\":{},\"args\":[",
+                esc(&rustc_ast_pretty::pprust::expr_to_string(f))
+            );
+            for (i, a) in args.iter().enumerate() {
+                if i > 0 {
+                    o.push(',');
+                }
+                o.push_str(&expr_json(a, depth + 1));
+            }
+            let _ = write!(o, "],\"src\":{}}}", esc(&src));
+            o
+        }
         ExprKind::Lit(l) => {
             format!(
                 "{{\"k\":\"lit\",\"lk\":{},\"sym\":{}}}",
@@ -686,7 +700,7 @@ impl<'a, 'tcx, 'ast> rustc_ast::visit::Visitor<'ast> for FmtVisitor<'a, 'tcx> {
             let (file, line, col) = self.ex.loc(fa.span);
             // outermost user-written macro
             let mut mac = String::new();
-            for ed in fa.span.macro_backtrace() {
+            for ed in e.span.macro_backtrace() {
                 if let rustc_span::ExpnKind::Macro(_, name) = ed.kind {
                     mac = name.to_string();
                 }
@@ -708,7 +722,17 @@ impl<'a, 'tcx, 'ast> rustc_ast::visit::Visitor<'ast> for FmtVisitor<'a, 'tcx> {
                             Err(_) => -1,
                         };
                         let tr = format!("{:?}", ph.format_trait);
-                        let _ = write!(o, "{{\"arg\":{idx},\"trait\":{}}}", esc(&tr));
+                        let width = match ph.format_options.width {
+                            Some(rustc_ast::FormatCount::Literal(n)) => n as i64,
+                            Some(_) => -2,
+                            None => -1,
+                        };
+                        let _ = write!(
+                            o,
+                            "{{\"arg\":{idx},\"trait\":{},\"width\":{width},\"zero_pad\":{}}}",
+                            esc(&tr),
+                            ph.format_options.zero_pad
+                        );
                     }
                 }
             }
